@@ -742,3 +742,50 @@ def main(ctx):
 
     rounits = [(f, k, o, keep) for f in FUNCS for k in ("plain", "f8", "struct") for o in ("<", ">") for keep in (False, True)]
     ctx.lattice("read-only-in-place", rounits, one_ro, bounds=dict(functions=list(FUNCS), kinds=["plain i4", "2-d f8", "structured"]))
+
+    # ------------------------------------------------------------ in place on ndarray subclasses
+    # record arrays and other ndarray subclasses are arrays too: an in-place conversion returns the SAME object, and
+    # that object (not a temporary base-class view of it) declares the new order and holds the same values
+    class _Sub(np.ndarray):
+        pass
+
+    def one_sub(case, rec):
+        func, kind, order, keep = case
+        if kind == "recarray":
+            a = np.zeros(3, dtype=[("x", order + "f8"), ("s", "S3"), ("v", order + "i2", (2,))])
+            a["x"] = [1.5, -2.0, 3.25]
+            a["s"] = [b"a", b"", b"abc"]
+            a["v"] = [[1, 2], [3, 4], [5, 6]]
+            sub = a.view(np.recarray)
+        else:
+            a = np.array([1, 2, 70000], dtype=order + "i4")
+            sub = a.view(_Sub)
+        def plain(z):
+            z = np.asarray(z)
+            if z.dtype.names:
+                return [z[n].astype(z.dtype[n].base.newbyteorder("=")).tolist() for n in z.dtype.names]
+            return z.astype(z.dtype.newbyteorder("=")).tolist()
+        vals = plain(a)
+        try:
+            r = fn_of[func](sub, inplace=True, keep_dtype=keep)
+        except Exception as e:
+            return rec.fail(case, "%s(inplace=True) on a %s raised %s: %s" % (func, kind, type(e).__name__, e))
+        if r is not sub:
+            return rec.fail(case, "%s(inplace=True) on a %s returned another object" % (func, kind))
+        if keep:
+            return rec.ok(case, outcome="sub:keep_dtype", nontrivial=True)
+        if plain(sub) != vals:
+            return rec.fail(case, "%s(inplace=True) on a %s: the caller's object now reads %r, was %r" % (func, kind, plain(sub), vals))
+        want = {"to_native": "=", "to_big_endian": ">", "to_little_endian": "<"}.get(func)
+        if want is not None:
+            dts = [sub.dtype[n].base for n in sub.dtype.names] if sub.dtype.names else [sub.dtype]
+            for dt in dts:
+                if dt.itemsize > 1 and dt.kind in "iufc":
+                    native = "<" if np.little_endian else ">"
+                    bo = native if dt.byteorder == "=" else dt.byteorder
+                    if bo != (native if want == "=" else want):
+                        return rec.fail(case, "%s(inplace=True) on a %s: the caller's object declares %s, requested %r" % (func, kind, dt.str, want))
+        rec.ok(case, outcome="sub:%s" % kind, nontrivial=True)
+
+    subunits = [(f, k, o, keep) for f in FUNCS for k in ("recarray", "subclass") for o in ("<", ">") for keep in (False, True)]
+    ctx.lattice("in-place-on-subclasses", subunits, one_sub, bounds=dict(kinds=["numpy.recarray", "plain ndarray subclass"]))
